@@ -137,8 +137,10 @@ where
     }
 }
 
+/// Returns the decoded value and whether its last byte is a line feed (which counts as a line break for
+/// the locations of later errors).
 #[cold]
-fn binary_uint(input: &mut LineReader) -> Result<usize, ParseError> {
+fn binary_uint(input: &mut LineReader) -> Result<(usize, bool), ParseError> {
     // TODO optimize this
     let reader = input.reader();
 
@@ -170,9 +172,11 @@ fn binary_uint(input: &mut LineReader) -> Result<usize, ParseError> {
         value = next_value | (byte & 0x7f) as usize;
     }
 
+    let ends_line = reader.buf()[byte_len - 1] == b'\n';
+
     reader.advance(byte_len);
 
-    Ok(value)
+    Ok((value, ends_line))
 }
 
 #[inline]
@@ -183,10 +187,14 @@ pub fn delta_code(
     reference: &str,
 ) -> Result<usize, ParseError> {
     input.reader().set_mark();
-    let delta = binary_uint(input)?;
+    let (delta, ends_line) = binary_uint(input)?;
 
     if delta > code {
         return delta_code_err(input, code, delta, target, reference);
+    }
+
+    if ends_line {
+        input.line_at_offset(0);
     }
 
     Ok(code - delta)
